@@ -153,6 +153,7 @@ def check_model(text, rng, tier):
         out["violations"].append(v)
         out["saved"] = saved
         out["status"] = "violated"
+        out["_ode"], out["_ref"] = ode, ref
         return out
     ode2 = r
     out["saved"] = saved
